@@ -109,7 +109,7 @@ func writeMultipartFormFile(w *multipart.Writer, file *FileUpload, r *Request) e
 		return err
 	}
 	defer content.Close()
-	if r.RetryAttempt > 0 { // reset file reader when retry a multipart file upload
+	if r.RetryAttempt > 0 || r.bodyRewrite { // reset file reader when the upload is written again
 		if rs, ok := content.(io.ReadSeeker); ok {
 			_, err = rs.Seek(0, io.SeekStart)
 			if err != nil {
